@@ -8,13 +8,16 @@
 //	                 "configs":[{"N":n,"ranges":[[from,to],..],"depth":d,"fpl":f},..]}
 //	    every name x every configuration: one "addr" line (spec/Trace_Naming.tla) with
 //	      hc / hp   the two 64-bit hashes as 16 hex digits, from an xxhash implementation in THIS file
-//	      srv       name.GetFolderNumber(N) of the server package       (2 fresh name objects)
-//	      sdk       name.GetIslandID(N) of the SDK package              (2 fresh name objects)
+//	      srv       name.GetFolderNumber(N) of the server package
+//	      sdk       name.GetIslandID(N) of the SDK package
 //	      route     index of the server the real SDK client picks (GetServiceClientAndHost, GetServiceClient)
 //	      loc       GetFullHashPath(root, island, depth, fpl) parsed into island / levels / leaf, or panic
-//	                (2 fresh name objects, plus name.Load(canonical) for valid names)
+//	    each taken through EVERY construction route of the name (plain chain; chain whose prefixes were
+//	    asked for island / path / string first; a realm-level prefix shared with another swamp; a used
+//	    object as receiver of a new chain; Load of the string form; the same object asked twice): only the
+//	    DISTINCT results are logged and the spec allows exactly one.
 //
-// Name objects memoise their first answer, so every call gets a fresh object. The SDK client is a real
+// Name objects memoise their first answer; a call with OTHER arguments on the same object is never made. The SDK client is a real
 // client.New(...).Connect() against in-process TLS gRPC servers on 127.0.0.1 (certificates generated at
 // start under $VERIF_WORK) that only answer Heartbeat.
 package main
@@ -198,6 +201,127 @@ func fullPath(n srvname.Name, island uint64, depth, fpl int) (l loc) {
 
 func srvNew(p []string) srvname.Name { return srvname.New().Sanctuary(p[0]).Realm(p[1]).Swamp(p[2]) }
 func sdkNew(p []string) sdkname.Name { return sdkname.New().Sanctuary(p[0]).Realm(p[1]).Swamp(p[2]) }
+
+// Construction routes: legal API call sequences that end in the SAME name. Name values are immutable
+// builders (every method returns a new Name) that memoise what they computed, so a prefix that has
+// already answered questions, a prefix shared by several swamps, the string form and the plain chain
+// must all give the same island, routing and location.
+type sdkRoute struct {
+	name  string
+	build func() sdkname.Name
+}
+type srvRoute struct {
+	name  string
+	build func() srvname.Name
+}
+
+const otherSwamp = "verif-other-swamp"
+
+// routeNames lists the construction routes that were exercised for this line (the trace spec demands the full set)
+func routeNames(n tname, c tconfig) []string {
+	out := []string{"same-object-twice"}
+	for _, r := range sdkRoutes(n, c) {
+		out = append(out, "sdk:"+r.name)
+	}
+	for _, r := range srvRoutes(n, c) {
+		out = append(out, "srv:"+r.name)
+	}
+	return out
+}
+
+func sdkRoutes(n tname, c tconfig) []sdkRoute {
+	p := n.Parts
+	N := uint64(c.N)
+	rs := []sdkRoute{
+		{"chain", func() sdkname.Name { return sdkNew(p) }},
+		{"asked-prefixes", func() sdkname.Name {
+			// every intermediate name is used (island, string form, wildcard test) before it is extended
+			a := sdkname.New()
+			a.Get()
+			b := a.Sanctuary(p[0])
+			b.GetIslandID(N)
+			b.Get()
+			b.IsWildcardPattern()
+			r := b.Realm(p[1])
+			r.GetIslandID(N)
+			r.Get()
+			return r.Swamp(p[2])
+		}},
+		{"asked-prefixes-other-N", func() sdkname.Name {
+			b := sdkname.New().Sanctuary(p[0])
+			b.GetIslandID(N + 7)
+			r := b.Realm(p[1])
+			r.GetIslandID(N + 13)
+			return r.Swamp(p[2])
+		}},
+		{"shared-prefix", func() sdkname.Name {
+			// one realm-level name kept as a base for several swamps
+			base := sdkname.New().Sanctuary(p[0]).Realm(p[1])
+			base.GetIslandID(N)
+			o := base.Swamp(otherSwamp)
+			o.GetIslandID(N)
+			o.Get()
+			return base.Swamp(p[2])
+		}},
+		{"reused-builder", func() sdkname.Name {
+			// a used name object serves as the receiver of a new chain
+			x := sdkname.New().Sanctuary("verif-x").Realm("y").Swamp("z")
+			x.GetIslandID(N)
+			return x.Sanctuary(p[0]).Realm(p[1]).Swamp(p[2])
+		}},
+	}
+	if n.Valid == 1 {
+		rs = append(rs, sdkRoute{"load", func() sdkname.Name { return sdkname.Load(p[0] + "/" + p[1] + "/" + p[2]) }},
+			sdkRoute{"load-of-get", func() sdkname.Name {
+				o := sdkNew(p)
+				o.GetIslandID(N)
+				return sdkname.Load(o.Get())
+			}})
+	}
+	return rs
+}
+
+func srvRoutes(n tname, c tconfig) []srvRoute {
+	p := n.Parts
+	N := uint16(c.N)
+	ask := func(x srvname.Name) {
+		// a prefix may be incomplete; what it answers (or whether it panics) is not the subject here
+		defer func() { recover() }()
+		x.GetFolderNumber(N)
+		x.Get()
+		x.IsWildcardPattern()
+		x.GetFullHashPath(rootPath, 1, c.Depth, c.Fpl)
+	}
+	rs := []srvRoute{
+		{"chain", func() srvname.Name { return srvNew(p) }},
+		{"asked-prefixes", func() srvname.Name {
+			a := srvname.New()
+			ask(a)
+			b := a.Sanctuary(p[0])
+			ask(b)
+			r := b.Realm(p[1])
+			ask(r)
+			return r.Swamp(p[2])
+		}},
+		{"shared-prefix", func() srvname.Name {
+			base := srvname.New().Sanctuary(p[0]).Realm(p[1])
+			ask(base)
+			o := base.Swamp(otherSwamp)
+			ask(o)
+			return base.Swamp(p[2])
+		}},
+		{"reused-builder", func() srvname.Name {
+			x := srvname.New().Sanctuary("verif-x").Realm("y").Swamp("z")
+			ask(x)
+			return x.Sanctuary(p[0]).Realm(p[1]).Swamp(p[2])
+		}},
+	}
+	if n.Valid == 1 {
+		rs = append(rs, srvRoute{"load", func() srvname.Name { return srvname.Load(p[0] + "/" + p[1] + "/" + p[2]) }},
+			srvRoute{"load-of-sdk-get", func() srvname.Name { return srvname.Load(sdkNew(p).Get()) }})
+	}
+	return rs
+}
 
 // ---------------------------------------------------------------- TLS heartbeat servers
 
@@ -403,46 +527,89 @@ func run(casesPath, tracePath string) {
 			canon := n.Parts[0] + "/" + n.Parts[1] + "/" + n.Parts[2]
 			hc := xxh64([]byte(n.Parts[0] + n.Parts[1] + n.Parts[2]))
 			hp := xxh64([]byte(canon))
-			// a panic of the code under test is an observation: -1 matches no value of the spec
-			srvIsland := func() int { return int(srvNew(n.Parts).GetFolderNumber(uint16(c.N))) }
-			sdkIsland := func() int { return int(sdkNew(n.Parts).GetIslandID(uint64(c.N))) }
-			srv := []int{guarded(srvIsland), guarded(srvIsland)}
-			sdk := []int{guarded(sdkIsland), guarded(sdkIsland)}
-			// routing: by host, and by client identity
-			r1 := guarded(func() int {
-				if sc := cl.GetServiceClientAndHost(sdkNew(n.Parts)); sc != nil {
-					if i := hostIdx[sc.Host]; i != 0 {
-						return i
-					}
-					return -1
+			// a panic of the code under test is an observation: -1 matches no value of the spec.
+			// Every result is taken through every construction route of the name (see sdkRoutes / srvRoutes):
+			// the route must not matter.
+			diag := map[string]any{}
+			var srv, sdk, rts []int
+			for _, rt := range srvRoutes(n, c) {
+				rt := rt
+				v := guarded(func() int { return int(rt.build().GetFolderNumber(uint16(c.N))) })
+				srv = append(srv, v)
+				diag["srv:"+rt.name] = v
+			}
+			// the same object asked twice
+			srv = append(srv, guarded(func() int {
+				o := srvNew(n.Parts)
+				a, b := o.GetFolderNumber(uint16(c.N)), o.GetFolderNumber(uint16(c.N))
+				if a != b {
+					return -2
 				}
-				return 0
-			})
-			r2 := guarded(func() int {
-				if g := cl.GetServiceClient(sdkNew(n.Parts)); g != nil {
-					for i, u := range uniq {
-						if u == g {
-							return i + 1
+				return int(b)
+			}))
+			for _, rt := range sdkRoutes(n, c) {
+				rt := rt
+				v := guarded(func() int { return int(rt.build().GetIslandID(uint64(c.N))) })
+				sdk = append(sdk, v)
+				diag["sdk:"+rt.name] = v
+				// routing: by host, and by client identity, with a name built through this route
+				r1 := guarded(func() int {
+					if sc := cl.GetServiceClientAndHost(rt.build()); sc != nil {
+						if i := hostIdx[sc.Host]; i != 0 {
+							return i
 						}
+						return -1
 					}
-					return -1
+					return 0
+				})
+				r2 := guarded(func() int {
+					if g := cl.GetServiceClient(rt.build()); g != nil {
+						for i, u := range uniq {
+							if u == g {
+								return i + 1
+							}
+						}
+						return -1
+					}
+					return 0
+				})
+				rts = append(rts, r1, r2)
+				diag["route:"+rt.name] = []int{r1, r2}
+			}
+			sdk = append(sdk, guarded(func() int {
+				o := sdkNew(n.Parts)
+				a, b := o.GetIslandID(uint64(c.N)), o.GetIslandID(uint64(c.N))
+				if a != b {
+					return -2
 				}
-				return 0
-			})
+				return int(b)
+			}))
 			// the request carries the island the SDK computed; the server builds the path with it
 			island := uint64(1)
 			if sdk[0] > 0 {
 				island = uint64(sdk[0])
 			}
-			locs := []loc{fullPath(srvNew(n.Parts), island, c.Depth, c.Fpl), fullPath(srvNew(n.Parts), island, c.Depth, c.Fpl)}
-			if n.Valid == 1 {
-				locs = append(locs, fullPath(srvname.Load(sdkNew(n.Parts).Get()), island, c.Depth, c.Fpl))
+			var locs []loc
+			for _, rt := range srvRoutes(n, c) {
+				l := fullPath(rt.build(), island, c.Depth, c.Fpl)
+				locs = append(locs, l)
+				diag["loc:"+rt.name] = l.Raw
+			}
+			{
+				// the same object asked twice with the same arguments
+				o := srvNew(n.Parts)
+				locs = append(locs, fullPath(o, island, c.Depth, c.Fpl), fullPath(o, island, c.Depth, c.Fpl))
 			}
 			raw := locs[0].Raw
 			// only the DISTINCT results of the repeated calls are logged
-			w.Emit(map[string]any{"ev": "addr", "id": n.ID, "valid": n.Valid, "hc": nibbles(hc), "hp": nibbles(hp),
+			ev := map[string]any{"ev": "addr", "id": n.ID, "valid": n.Valid, "hc": nibbles(hc), "hp": nibbles(hp),
 				"N": c.N, "ranges": c.Ranges, "depth": c.Depth, "fpl": c.Fpl,
-				"srv": distinct(srv), "sdk": distinct(sdk), "route": distinct([]int{r1, r2}), "loc": distinctLocs(locs), "raw": raw})
+				"srv": distinct(srv), "sdk": distinct(sdk), "route": distinct(rts), "loc": distinctLocs(locs), "raw": raw,
+				"routes": routeNames(n, c)}
+			if len(distinct(srv)) > 1 || len(distinct(sdk)) > 1 || len(distinct(rts)) > 1 || len(distinctLocs(locs)) > 1 {
+				ev["byroute"] = diag // which construction route gave what (not read by the spec)
+			}
+			w.Emit(ev)
 		}
 	}
 	for _, cl := range clients {
